@@ -6,13 +6,13 @@ from props import dtfam, c03
 
 ID = 'C11'
 PROPS_MODULE = 'Props.C11'
-THEOREMS = ['C11_colifilt', 'C11_colfilter', 'C11_c2q']
+THEOREMS = ['C11_colifilt', 'C11_rowifilt', 'C11_colfilter', 'C11_c2q']
 VO = ['theories/Props/C11.vo', 'theories/Run/RunDtcwt.vo', 'theories/Run/RunSpec.vo']
 RULE = ('correspondence A: colifilt/rowifilt full operator matrices (both m/2 parities, both flags, rows below the filter), c2q, inv_j1/inv_j2plus with every presence combination and the '
         'oversize-lowpass crop, DTCWTInverse on integer pyramids with every absent-level subset and absent lowpass; correspondence B: reference colifilt/colfilter closed forms vs the package; '
         'oracle: DTCWTInverse vs dtcwt.Transform2d.inverse on random pyramids of forward-compatible shapes (20 pairs) incl. full-shape levels that are exactly zero, None / 0-dim / empty placeholders vs explicit zeros. distinct by configuration.')
 TRUSTED = TRUSTED_COMMON + ['the NumPy dtcwt package as reference (closed forms in Spec/DtcwtRef.v tied by correspondence B; inverse level structure by the oracle)']
-ASSUMES = ['theorems cover colifilt (all cases), colfilter and c2q for ANY input; row twins, size reconciliation and absent-level handling by correspondence + oracle (known findings KF-DTCWT-NONE-CROP, KF-DTCWT-ALL-ABSENT)']
+ASSUMES = ['theorems cover colifilt and rowifilt (all cases), colfilter and c2q for ANY input; size reconciliation and absent-level handling by correspondence + oracle (known findings KF-DTCWT-NONE-CROP, KF-DTCWT-ALL-ABSENT)']
 
 
 def corr_jobs(tier, rng):
